@@ -5,6 +5,7 @@ import Driver.Spec
 import Driver.Interp
 import Driver.Disp
 import Driver.TS
+import Driver.Wind
 
 open Osu.Driver
 
@@ -22,6 +23,7 @@ def handle (st : DState) (line : String) : DState × String :=
   | "interp" :: rest => (st, Interp.step rest)
   | "disp" :: rest => (st, Disp.step rest)
   | "ts" :: rest => (st, TS.step rest)
+  | "wind" :: rest => (st, Wind.step rest)
   | _ => (st, "bad-op")
 
 partial def loop (h : IO.FS.Stream) (out : IO.FS.Stream) (st : DState) : IO Unit := do
